@@ -156,6 +156,15 @@ Definition counters (fs : fsys) (root : list elem) (meth name ae def : bytes) (c
     | _ => (0, 0)
     end.
 
+(* static_rule_load.go / action.go ActionFileCheck: a rule {Cmd, Params [root, default]} of a rule file loads iff Cmd is
+   exactly "BROWSE", there are two params, os.Stat(root) succeeds and, for a non-empty default,
+   os.Stat(path.Join(root, default)) succeeds (lexical join, not confined to root) *)
+Definition BROWSE : bytes := [66; 82; 79; 87; 83; 69].
+Definition rule_file_ok (fs : fsys) (root : list elem) (def cmd : bytes) : bool :=
+  bytes_eqb cmd BROWSE
+  && match walk fs [] root with RFile _ | RDir => true | _ => false end
+  && match def with [] => true | _ => stat_ok fs root def end.
+
 Example clean_ex1 : clean_name [47;97;47;46;46;47;46;46;47;98] = [[98]].   (* "/a/../../b" -> /b *)
 Proof. reflexivity. Qed.
 Example has_token_ex1 : has_token [71;90;73;80;44;32;98;114] GZIP = true.       (* "GZIP, br" *)
